@@ -146,6 +146,9 @@ def run_tlc(module, cfg, workers=None, timeout=900, env=None, dfs=False, extra=(
     m = re.search(r"Temporal properties were violated", out)
     if m and not res["violated"]:
         res["violated"] = "temporal"
+    m = re.search(r"Temporal property (\S+) was violated", out)
+    if m and not res["violated"]:
+        res["violated"] = "temporal property " + m.group(1)
     m = re.search(r"Action property (.*?) is violated", out)
     if m:
         res["violated"] = "action property " + m.group(1)[:80]
